@@ -34,6 +34,16 @@ CHECKS = {
             'pool (all NaN classes, -0, inf, subnormal, extremes, INT_MIN, decimal hard cases) + random bit patterns; the bits '
             'that come back from the compiled code must equal the bits in the module. Exploration over 2^64 immediates.',
             'Trusts the C compilers\' decimal-to-binary conversion and memcpy-based observation.', 'DESIGN.md section 7 C07'),
+    'C03': ('F1 end-to-end (wasmkit + refinterp + cexec)',
+            'PBT: grammar-based generation of structured control flow (value-carrying branches with extra operands, br_table, '
+            'stack-polymorphic dead code, bounded loops, locals), differential against the reference interpreter on return '
+            'value/trap AND ordered host-call trace; validator-filtered structural reduction of failures',
+            'Generated-input search over function bodies with arbitrary nesting of block/loop/if, branches out of any depth '
+            'with extra operands below the carried value, br_table incl. out-of-range indices, dead code with nested blocks, '
+            'mixed-type locals read before written; the executed path is pinned by env.trace host calls and global writes, not '
+            'just by the result. Exploration: the space of bodies is unbounded.',
+            'Trusts the reference interpreter and the independent validator (both calibrated on the spec suite: 20k assertions, '
+            '1280 invalid modules rejected).', 'DESIGN.md section 7 C03'),
 }
 
 NOT_YET = {}
